@@ -150,7 +150,7 @@ func runRangeCase(c gCase) gEvent {
 		rules = append(rules, s)
 	}
 	p, _ := catch(func() {
-		for _, order := range c.Orders {
+		for oi, order := range c.Orders {
 			var col jsonapi.Collection
 			switch c.Coll {
 			case "soft":
@@ -190,6 +190,14 @@ func runRangeCase(c gCase) gEvent {
 			case "nope0":
 				flt = &jsonapi.Filter{Op: "xor", Val: []*jsonapi.Filter{}}
 			}
+			// the collation a filter names says nothing about whom it allows: one walk in two carries one
+			// (the collection's own type name, or another name), at the root and on the leaf
+			if flt != nil && oi%2 == 1 {
+				flt.Col = []string{"rt", "other"}[(oi/2)%2]
+				if inner, ok := flt.Val.([]*jsonapi.Filter); ok && len(inner) == 1 && inner[0] != nil {
+					inner[0].Col = flt.Col
+				}
+			}
 			run := gRun{Order: order, Pages: [][]string{}, After: []string{}, NonNil: true}
 			// one id list and one rule list for all the pages of a walk, as a caller paging through has
 			idList, ruleList := append([]string{}, c.IDs...), append([]string{}, rules...)
@@ -223,6 +231,27 @@ func runRangeCase(c gCase) gEvent {
 					run.Pages[k] = append(now, "changed-after-a-later-call")
 				}
 			}
+			// a caller does what it likes with a page it was given (it is a Collection: Add is there): the
+			// same question asked again gets the same answer
+			for _, page := range kept {
+				if page == nil || reflectIsNil(page) || callerWriteSeen {
+					continue
+				}
+				extra := newRes("soft", "rt", fields, kindMap{})
+				extra.Set("id", "added-by-the-caller")
+				page.Add(extra)
+			}
+			for num := 0; num < c.Pages; num++ {
+				again := jsonapi.Range(col, idList, flt, ruleList, c.size(), uint(num))
+				if again == nil || reflectIsNil(again) {
+					continue
+				}
+				want := run.Pages[num]
+				if now := idsOfPage(again); !reflect.DeepEqual(now, want) && !(len(want) > 0 && want[len(want)-1] == "changed-after-a-later-call") {
+					run.Pages[num] = append(now, "another-answer-after-the-caller-wrote-to-a-page")
+					callerWriteSeen = true // once seen, no further writes (a page shared by every call would grow without end)
+				}
+			}
 			for i := 0; i < col.Len(); i++ {
 				run.After = append(run.After, col.At(i).Get("id").(string))
 			}
@@ -234,6 +263,9 @@ func runRangeCase(c gCase) gEvent {
 	}
 	return ev
 }
+
+// callerWriteSeen: a write to a returned page has shown in a later answer (see runRangeCase)
+var callerWriteSeen bool
 
 func perms(ids []string, max int, shuffle func(n int, swap func(i, j int))) [][]string {
 	var out [][]string
